@@ -3,9 +3,18 @@
 kind "own":   B / It are plain subclasses of BatchBase / BatchItemBase; the environment keeps the active-batch
               pointer that B._try_switch_active_batch moves (the way DebugBatch does with its registry).
 kind "debug": the built-in DebugBatch / DebugBatchItem and their thread-local registry _debug_batch_state.
-Only executes and compares: every expected result comes from the history record TLC exported."""
+Only executes and compares: every expected result comes from the history record TLC exported.
+
+Dimensions the specification does not have, so every variant must give the same prescribed results:
+  * debug options: default, ENABLE_COMPLEX_ASSERTIONS off (asynq.debug.disable_complex_assertions()), KEEP_DEPENDENCIES on;
+  * for flush bodies that finish their own batch (f<s>-<how>): how the body ends afterwards - returns, raises, or
+    tries to set its items again (which raises FutureIsAlreadyComputed out of the body).
+The scheduler is never run on these objects; every history runs under an interval-timer watchdog and a hang counts
+as a mismatch."""
+import contextlib
 import json
 import os
+import signal
 import sys
 
 devnull = open(os.devnull, "w")
@@ -16,6 +25,7 @@ os.dup2(devnull.fileno(), 2)
 
 import asynq
 from asynq import batching
+from asynq import debug as adebug
 from asynq.batching import BatchBase, BatchCancelledError, BatchingError, BatchItemBase, DebugBatch, DebugBatchItem
 
 
@@ -31,9 +41,45 @@ class VBase(BaseException):          # a BaseException subclass that is not an E
         self.code = code
 
 
+class Hang(BaseException):
+    pass
+
+
+HANG_S = 2.0
+hung = [0]
+
+
+def on_alarm(signum, frame):
+    hung[0] += 1
+    signal.setitimer(signal.ITIMER_REAL, HANG_S)      # keep interrupting until the history gives up
+    raise Hang()
+
+
+MODES = ("default", "noeca", "keepdeps")
+ENDINGS = ("ret", "raise", "more")
+
+
+@contextlib.contextmanager
+def options_mode(mode):
+    if mode == "noeca":
+        with adebug.disable_complex_assertions():
+            yield
+    elif mode == "keepdeps":
+        old = adebug.options.KEEP_DEPENDENCIES
+        adebug.options.KEEP_DEPENDENCIES = True
+        try:
+            yield
+        finally:
+            adebug.options.KEEP_DEPENDENCIES = old
+    else:
+        yield
+
+
 def code(e):
     if e is None:
         return "ok"
+    if isinstance(e, Hang):
+        return "HANG"
     if isinstance(e, (VErr, VBase)):
         return e.code
     if isinstance(e, BatchCancelledError):
@@ -61,6 +107,24 @@ class B(BatchBase):
         env.runs[b] = env.runs.get(b, 0) + 1
         mine = [(env.iindex[id(it)][1], it) for it in list(self.items)]
         body = env.body
+        if body.startswith("f"):          # f<s>-<how>: finish the own batch half-way, then end as env.ending says
+            first, how = body[1], body[3:]
+            if first == "1" and mine:
+                mine[0][1].set_value("v%d.%d" % (b, mine[0][0]))
+            if how == "cancel_e":
+                self.cancel(VErr("ce"))
+            elif how == "cancel":
+                self.cancel()
+            elif how == "seterr":
+                self.set_error(VErr("se"))
+            elif how == "setval":
+                self.set_value(None)
+            if env.ending == "raise":
+                raise VErr("fe")
+            if env.ending == "more":
+                for i, it in mine:
+                    it.set_value("v%d.%d" % (b, i))
+            return
         if body == "new":
             env.add_item(event=True)
         for i, it in mine:
@@ -88,9 +152,10 @@ class It(BatchItemBase):
 
 
 class Env(object):
-    def __init__(self, kind, body, serial):
+    def __init__(self, kind, body, serial, ending=None):
         self.kind = kind
         self.body = body
+        self.ending = ending
         self.batches = []        # creation order; model index = position + 1
         self.count = {}          # b -> items created in batch b
         self.items = {}          # (b, i) -> item
@@ -201,8 +266,8 @@ def tf(fn):
         return "raised:" + code(e)
 
 
-def run_history(kind, body, pre, ops, serial):
-    env = Env(kind, body, serial)
+def run_history(kind, body, pre, ops, serial, ending=None):
+    env = Env(kind, body, serial, ending)
     for _ in range(pre):             # requests made before the history starts
         env.add_item()
     got = []
@@ -262,7 +327,30 @@ def run_history(kind, body, pre, ops, serial):
         env.discover()
         n = -1 if (kind == "debug" or b == 0) else env.runs.get(b, 0)
         got.append({"r": r, "a": canon(env.events), "n": n})
+        if hung[0]:
+            got[-1]["hang"] = True
+            break
     return got
+
+
+def guarded(c, serial, mode, ending):
+    """One execution of a history under a watchdog; returns (got, diff)."""
+    ops = c["h"]
+    hung[0] = 0
+    signal.setitimer(signal.ITIMER_REAL, HANG_S)
+    try:
+        try:
+            with options_mode(mode):
+                got = run_history(c["kind"], c["body"], c.get("pre", 0), ops, serial, ending)
+        finally:
+            signal.setitimer(signal.ITIMER_REAL, 0)
+    except Hang:
+        return "hang (no progress for %.0f s)" % HANG_S, [0]
+    except BaseException as e:
+        return "harness exception %s: %s" % (type(e).__name__, e), [0]
+    if hung[0]:
+        return got, [len(got) - 1]
+    return got, [j for j, (o, g) in enumerate(zip(ops, got)) if not same(o, g)]
 
 
 def same(exp, g):
@@ -275,18 +363,28 @@ def same(exp, g):
 
 def main():
     cases = json.load(sys.stdin)
+    signal.signal(signal.SIGALRM, on_alarm)
     out = []
+    execs = hangs = 0
     for k, c in enumerate(cases):
-        ops = c["h"]
-        try:
-            got = run_history(c["kind"], c["body"], c.get("pre", 0), ops, k)
-        except BaseException as e:
-            out.append({"i": k, "got": "harness exception %s: %s" % (type(e).__name__, e), "diff": [0]})
-            continue
-        diff = [j for j, (o, g) in enumerate(zip(ops, got)) if not same(o, g)]
-        if diff:
-            out.append({"i": k, "got": got, "diff": diff})
-    out.append({"n": len(cases)})
+        endings = ENDINGS if c["body"].startswith("f") else (None,)
+        for mode in MODES:
+            bad = None
+            for ending in endings:
+                if hangs >= 5:
+                    bad = ("not run: 5 histories hung before this one", [0], mode, ending)
+                    break
+                execs += 1
+                got, diff = guarded(c, k, mode, ending)
+                if diff:
+                    if hung[0] or (isinstance(got, str) and got.startswith("hang")):
+                        hangs += 1
+                    bad = (got, diff, mode, ending)
+                    break
+            if bad:
+                out.append({"i": k, "got": bad[0], "diff": bad[1], "mode": bad[2], "ending": bad[3] or "-"})
+                break
+    out.append({"n": len(cases), "execs": execs})
     json.dump(out, real_out)
     real_out.flush()
 
